@@ -1,72 +1,93 @@
 import CollectionsC.Properties.C03
-import CollectionsC.Proofs.TreeTableMem
 /-! # C06 (tree table / tree set part): memory safety and leak freedom
 
 `Mem.fault` is the model's memory-safety flag (a release with nothing live, a dereference through a
 link that does not exist — here: `iter_remove` before any `iter_next`, the only documented
-precondition).  `Mem.live` counts the blocks obtained through the configured allocator.  The table
-owns `size + 2` blocks (nodes, sentinel, header), the set one more.  Quantifiers: every total-order
-comparator, every state satisfying the invariant, every call / history, every allocator schedule. -/
+precondition).  The ledger counter that belongs to the container's allocator triple
+(`TreeTable.liveOf m t.triple`: `live` for `new_conf`, `liveLibc` for the default constructor) counts
+the blocks obtained through it.  The table owns `size + 2` blocks (nodes, sentinel, header), the set one
+more; `TreeTable.Owns` / `TreeSet.Owns` say that the ledger holds at least those — established by the
+constructors, preserved by everything.  Quantifiers: every total-order comparator, every state
+satisfying the invariant, every call / history / session, every allocator schedule, both triples.
+The functional tree cannot express dangling links inside the tree; those are the harness's (ASan,
+parent-pointer walker). -/
 namespace CC.Properties.C06Tree
 open CC CC.Spec CC.Spec.OrdMap
 variable {cmp : Nat → Nat → Int}
 
 /-- (a) no call of the table API faults -/
 theorem step_nofault (ho : TotalOrder cmp) (t : TreeTable) (h : t.Inv cmp) (op : Op) (m : Mem)
-    (hm : t.size + 2 ≤ m.live) : (t.step cmp op m).2.2.1.fault = m.fault :=
+    (hm : TreeTable.Owns t m) : (t.step cmp op m).2.2.1.fault = m.fault :=
   (C03.step_refines ho t h op m hm).nofault
 
 /-- (a) lifted to histories, for every refusal schedule -/
 theorem history_nofault (ho : TotalOrder cmp) (ops : List (Op × List Bool)) (t : TreeTable) (h : t.Inv cmp)
-    (m : Mem) (hm : t.size + 2 ≤ m.live) : (t.run cmp ops m).2.2.2.fault = m.fault :=
+    (m : Mem) (hm : TreeTable.Owns t m) : (t.run cmp ops m).2.2.2.fault = m.fault :=
   (C03.history_refines ho ops t h m hm).2.2.2.1
 
-/-- (b) per call the number of live blocks moves exactly with the number of entries -/
+/-- (b) per call the number of live blocks of the table's triple moves exactly with the number of
+entries, and ledger consistency is preserved -/
 theorem step_ledger (ho : TotalOrder cmp) (t : TreeTable) (h : t.Inv cmp) (op : Op) (m : Mem)
-    (hm : t.size + 2 ≤ m.live) :
-    (t.step cmp op m).2.2.1.live + t.size = m.live + (t.step cmp op m).2.1.size :=
-  (C03.step_refines ho t h op m hm).ledger
+    (hm : TreeTable.Owns t m) :
+    TreeTable.liveOf (t.step cmp op m).2.2.1 t.triple + t.size =
+      TreeTable.liveOf m t.triple + (t.step cmp op m).2.1.size ∧
+    TreeTable.Owns (t.step cmp op m).2.1 (t.step cmp op m).2.2.1 :=
+  ⟨(C03.step_refines ho t h op m hm).ledger, (C03.step_refines ho t h op m hm).owns⟩
 
 theorem history_ledger (ho : TotalOrder cmp) (ops : List (Op × List Bool)) (t : TreeTable) (h : t.Inv cmp)
-    (m : Mem) (hm : t.size + 2 ≤ m.live) :
-    (t.run cmp ops m).2.2.2.live + t.size = m.live + (t.run cmp ops m).2.2.1.size :=
-  (C03.history_refines ho ops t h m hm).2.2.2.2.1
+    (m : Mem) (hm : TreeTable.Owns t m) :
+    TreeTable.liveOf (t.run cmp ops m).2.2.2 t.triple + t.size =
+      TreeTable.liveOf m t.triple + (t.run cmp ops m).2.2.1.size ∧
+    TreeTable.Owns (t.run cmp ops m).2.2.1 (t.run cmp ops m).2.2.2 :=
+  ⟨(C03.history_refines ho ops t h m hm).2.2.2.2.1, (C03.history_refines ho ops t h m hm).2.2.2.2.2.1⟩
 
 /-- `remove_all` releases one block per entry and nothing else -/
 theorem remove_all_ledger (ho : TotalOrder cmp) (t : TreeTable) (h : t.Inv cmp) (m : Mem)
-    (hm : t.size + 2 ≤ m.live) :
-    (t.removeAll m).2.live + t.size = m.live ∧ (t.removeAll m).2.fault = m.fault ∧ (t.removeAll m).1.size = 0 := by
+    (hm : TreeTable.Owns t m) :
+    TreeTable.liveOf (t.removeAll m).2 t.triple + t.size = TreeTable.liveOf m t.triple ∧
+    (t.removeAll m).2.fault = m.fault ∧ (t.removeAll m).1.size = 0 := by
   have s := C03.step_refines ho t h .removeAll m hm
   exact ⟨s.ledger, s.nofault, rfl⟩
 
-/-- (b) **`new … any history … destroy` returns the ledger to where it started**, whatever the
-allocator refuses on the way, without a fault -/
-theorem destroy_releases_all (ho : TotalOrder cmp) (m0 m1 : Mem) (t0 : TreeTable)
-    (hnew : TreeTable.new m0 = (.ok, some t0, m1)) (ops : List (Op × List Bool)) :
-    ((t0.run cmp ops m1).2.2.1.destroy (t0.run cmp ops m1).2.2.2).live = m0.live ∧
-    ((t0.run cmp ops m1).2.2.1.destroy (t0.run cmp ops m1).2.2.2).fault = m0.fault := by
-  obtain ⟨hi, ha, hl, hf⟩ := (C03.new_inv (cmp := cmp) m0).1 t0 m1 hnew
+/-- (a)/(b) for sessions — table calls interleaved with iterator sessions, removal through the
+iterator included; the fault flag stays clear when `iter_remove` is only called after a successful
+`iter_next` (`SessionValid`) -/
+theorem session_nofault_ledger (ho : TotalOrder cmp) (segs : List Segment) (t : TreeTable) (h : t.Inv cmp)
+    (m : Mem) (hm : TreeTable.Owns t m) :
+    (TreeTable.SessionValid cmp t segs m → (t.runSession cmp segs m).2.2.fault = m.fault) ∧
+    TreeTable.liveOf (t.runSession cmp segs m).2.2 t.triple + t.size =
+      TreeTable.liveOf m t.triple + (t.runSession cmp segs m).2.1.size ∧
+    TreeTable.Owns (t.runSession cmp segs m).2.1 (t.runSession cmp segs m).2.2 :=
+  (C03.session_refines_model ho segs t h m hm).2.2.2
+
+/-- (b) **`new … any session … destroy` returns the ledger to where it started**, whatever the
+allocator refuses on the way, on whichever triple the table was built, without a fault -/
+theorem destroy_releases_all (ho : TotalOrder cmp) (tr : Triple) (m0 m1 : Mem) (t0 : TreeTable)
+    (hnew : TreeTable.newT tr m0 = (.ok, some t0, m1)) (segs : List Segment)
+    (hv : TreeTable.SessionValid cmp t0 segs m1) :
+    TreeTable.liveOf ((t0.runSession cmp segs m1).2.1.destroy (t0.runSession cmp segs m1).2.2) tr =
+      TreeTable.liveOf m0 tr ∧
+    ((t0.runSession cmp segs m1).2.1.destroy (t0.runSession cmp segs m1).2.2).fault = m0.fault := by
+  obtain ⟨hi, ha, ht, hl, hf, how⟩ := (C03.new_inv (cmp := cmp) tr m0).1 t0 m1 hnew
   have hs : t0.size = 0 := by rw [hi.size_eq, ha]; rfl
-  obtain ⟨_, _, c, d, e, _⟩ := C03.history_refines ho ops t0 hi m1 (by omega)
-  have := C03.destroy_ledger (t0.run cmp ops m1).2.2.1 c (t0.run cmp ops m1).2.2.2 (by omega)
-  exact ⟨by omega, by rw [this.2, d, hf]⟩
+  obtain ⟨_, _, c, d, e, _, g⟩ := TreeTable.session_ok ho segs hi m1 how
+  obtain ⟨_, _, _, _, _, f, _⟩ := TreeTable.session_ok ho segs hi m1 how
+  have := C03.destroy_ledger (t0.runSession cmp segs m1).2.1 c (t0.runSession cmp segs m1).2.2 g
+  rw [f, ht] at this
+  rw [ht] at e
+  exact ⟨by omega, by rw [this.2, d hv, hf]⟩
 
 /-- a refused constructor leaves nothing behind -/
-theorem new_refused_no_leak (m0 : Mem) (h : (TreeTable.new m0).1 = .errAlloc) :
-    (TreeTable.new m0).2.1 = none ∧ (TreeTable.new m0).2.2.live = m0.live ∧ (TreeTable.new m0).2.2.fault = m0.fault :=
-  (C03.new_inv (cmp := fun _ _ => 0) m0).2.2 h
-
-/-- (a)/(b) for iterator programs; the fault flag stays clear when `iter_remove` is only called after a
-successful `iter_next` -/
-theorem iter_nofault_ledger (ho : TotalOrder cmp) (t : TreeTable) (h : t.Inv cmp) (prog : List IterOp) (m : Mem)
-    (hm : t.size + 2 ≤ m.live) :
-    (TreeTable.IterValid cmp t t.iterInit prog m → (t.iterRun cmp t.iterInit prog m).2.2.2.fault = m.fault) ∧
-    (t.iterRun cmp t.iterInit prog m).2.2.2.live + t.size = m.live + (t.iterRun cmp t.iterInit prog m).2.1.size :=
-  (C03.iter_refines ho t h prog m hm).2.2.2
+theorem new_refused_no_leak (tr : Triple) (m0 : Mem) (h : (TreeTable.newT tr m0).1 = .errAlloc) :
+    (TreeTable.newT tr m0).2.1 = none ∧
+    TreeTable.liveOf (TreeTable.newT tr m0).2.2 tr = TreeTable.liveOf m0 tr ∧
+    (TreeTable.newT tr m0).2.2.fault = m0.fault :=
+  (C03.new_inv (cmp := fun _ _ => 0) tr m0).2.2 h
 
 /-- (c) the callback variants (`foreach_key`, `foreach_value`) hand every held key / value to the
-callback exactly once, in ascending key order, and change nothing -/
-theorem foreach_each_once (t : TreeTable) (m : Mem) :
+callback exactly once, in ascending key order, and change nothing.  (`_model`: the enumeration is
+defined on the in-order list, see the header of `C03`.) -/
+theorem foreach_each_once_model (t : TreeTable) (m : Mem) :
     (t.step cmp .foreachKey m).1.log = keys t.abs ∧ (t.step cmp .foreachValue m).1.log = values t.abs ∧
     (t.step cmp .foreachKey m).2.1 = t ∧ (t.step cmp .foreachValue m).2.1 = t ∧
     (t.step cmp .foreachKey m).2.2.1 = m ∧ (t.step cmp .foreachValue m).2.2.1 = m :=
@@ -75,50 +96,69 @@ theorem foreach_each_once (t : TreeTable) (m : Mem) :
 /-! ## tree set -/
 
 theorem set_step_nofault (ho : TotalOrder cmp) (s : TreeSet) (h : s.Inv cmp) (op : OrdSet.Op) (m : Mem)
-    (hm : s.t.size + 2 ≤ m.live) : (s.step cmp op m).2.2.1.fault = m.fault :=
+    (hm : TreeTable.Owns s.t m) : (s.step cmp op m).2.2.1.fault = m.fault :=
   (C03.set_step_refines ho s h op m hm).nofault
 
 theorem set_step_ledger (ho : TotalOrder cmp) (s : TreeSet) (h : s.Inv cmp) (op : OrdSet.Op) (m : Mem)
-    (hm : s.t.size + 2 ≤ m.live) :
-    (s.step cmp op m).2.2.1.live + s.t.size = m.live + (s.step cmp op m).2.1.t.size :=
+    (hm : TreeTable.Owns s.t m) :
+    TreeTable.liveOf (s.step cmp op m).2.2.1 s.triple + s.t.size =
+      TreeTable.liveOf m s.triple + (s.step cmp op m).2.1.t.size :=
   (C03.set_step_refines ho s h op m hm).ledger
 
 theorem set_history_nofault (ho : TotalOrder cmp) (ops : List (OrdSet.Op × List Bool)) (s : TreeSet)
-    (h : s.Inv cmp) (m : Mem) (hm : s.t.size + 2 ≤ m.live) : (s.run cmp ops m).2.2.2.fault = m.fault :=
+    (h : s.Inv cmp) (m : Mem) (hm : TreeTable.Owns s.t m) : (s.run cmp ops m).2.2.2.fault = m.fault :=
   (C03.set_history_refines ho ops s h m hm).2.2.2.1
 
 /-- `cc_treeset_destroy` releases the table's blocks and the set header -/
-theorem set_destroy_ledger (s : TreeSet) (h : s.Inv cmp) (m : Mem) (hm : s.t.size + 3 ≤ m.live) :
-    (s.destroy m).live + s.t.size + 3 = m.live ∧ (s.destroy m).fault = m.fault := by
-  have a := C03.destroy_ledger s.t h.1 m (by omega)
-  have b := TreeTable.free_spec (s.t.destroy m) (by omega)
-  unfold TreeSet.destroy
-  rw [b.1, b.2]
-  exact ⟨by omega, a.2⟩
+theorem set_destroy_ledger (s : TreeSet) (h : s.Inv cmp) (m : Mem) (hm : TreeSet.Owns s m) :
+    TreeTable.liveOf (s.destroy m) s.triple + s.t.size + 3 = TreeTable.liveOf m s.triple ∧
+    (s.destroy m).fault = m.fault :=
+  TreeSet.destroy_spec h m hm
 
 /-- **`new … any history … destroy` on a set returns the ledger to where it started** -/
-theorem set_destroy_releases_all (ho : TotalOrder cmp) (m0 m1 : Mem) (s0 : TreeSet)
-    (hnew : TreeSet.new m0 = (.ok, some s0, m1)) (ops : List (OrdSet.Op × List Bool)) :
-    ((s0.run cmp ops m1).2.2.1.destroy (s0.run cmp ops m1).2.2.2).live = m0.live ∧
+theorem set_destroy_releases_all (ho : TotalOrder cmp) (tr : Triple) (m0 m1 : Mem) (s0 : TreeSet)
+    (hnew : TreeSet.newT tr m0 = (.ok, some s0, m1)) (ops : List (OrdSet.Op × List Bool)) :
+    TreeTable.liveOf ((s0.run cmp ops m1).2.2.1.destroy (s0.run cmp ops m1).2.2.2) tr = TreeTable.liveOf m0 tr ∧
     ((s0.run cmp ops m1).2.2.1.destroy (s0.run cmp ops m1).2.2.2).fault = m0.fault := by
-  obtain ⟨hi, ha, hl, hf⟩ := (C03.set_new_inv (cmp := cmp) m0).1 s0 m1 hnew
+  obtain ⟨hi, ha, ht, hl, hf, how⟩ := (C03.set_new_inv (cmp := cmp) tr m0).1 s0 m1 hnew
   have hs : s0.t.size = 0 := by rw [hi.1.size_eq, ha]; rfl
-  obtain ⟨_, _, c, d, e, _⟩ := C03.set_history_refines ho ops s0 hi m1 (by omega)
-  have := set_destroy_ledger (s0.run cmp ops m1).2.2.1 c (s0.run cmp ops m1).2.2.2 (by omega)
+  have how' : TreeTable.Owns s0.t m1 := by
+    unfold TreeSet.Owns at how; unfold TreeTable.Owns; rw [hi.2.2]; omega
+  obtain ⟨_, _, c, d, e, f, _, _⟩ := TreeSet.run_ok ho ops hi m1 how'
+  have := set_destroy_ledger (s0.run cmp ops m1).2.2.1 c (s0.run cmp ops m1).2.2.2
+    (by unfold TreeSet.Owns; rw [f, ht]; rw [ht] at e; omega)
+  rw [f, ht] at this
+  rw [ht] at e
   exact ⟨by omega, by rw [this.2, d, hf]⟩
 
-theorem set_new_refused_no_leak (m0 : Mem) (h : (TreeSet.new m0).1 = .errAlloc) :
-    (TreeSet.new m0).2.1 = none ∧ (TreeSet.new m0).2.2.live = m0.live ∧ (TreeSet.new m0).2.2.fault = m0.fault :=
-  (C03.set_new_inv (cmp := fun _ _ => 0) m0).2.2 h
+theorem set_new_refused_no_leak (tr : Triple) (m0 : Mem) (h : (TreeSet.newT tr m0).1 = .errAlloc) :
+    (TreeSet.newT tr m0).2.1 = none ∧
+    TreeTable.liveOf (TreeSet.newT tr m0).2.2 tr = TreeTable.liveOf m0 tr ∧
+    (TreeSet.newT tr m0).2.2.fault = m0.fault :=
+  (C03.set_new_inv (cmp := fun _ _ => 0) tr m0).2.2 h
 
 /-- set iterator programs run on the table iterator: same ledger, same fault flag -/
 theorem set_iter_nofault_ledger (ho : TotalOrder cmp) (s : TreeSet) (h : s.Inv cmp) (prog : List IterOp) (m : Mem)
-    (hm : s.t.size + 2 ≤ m.live) :
+    (hm : TreeTable.Owns s.t m) :
     (TreeTable.IterValid cmp s.t s.iterInit prog m → (s.iterRun cmp s.iterInit prog m).2.2.2.fault = m.fault) ∧
-    (s.iterRun cmp s.iterInit prog m).2.2.2.live + s.t.size = m.live + (s.iterRun cmp s.iterInit prog m).2.1.t.size := by
-  have k := iter_nofault_ledger ho s.t h.1 prog m hm
+    TreeTable.liveOf (s.iterRun cmp s.iterInit prog m).2.2.2 s.triple + s.t.size =
+      TreeTable.liveOf m s.triple + (s.iterRun cmp s.iterInit prog m).2.1.t.size := by
+  have k := (C03.iter_refines_model ho s.t h.1 prog m hm).2.2.2
   have e := TreeSet.iterRun_eq_table (cmp := cmp) prog s s.iterInit m
-  rw [e.2.1, e.2.2]
-  exact k
+  rw [e.2.1, e.2.2.2, ← h.2.2]
+  exact ⟨k.1, k.2.1⟩
+
+/-! ## Non-vacuity -/
+open CC.Driver.TreeTableD (cmpOf) in
+/-- a whole life cycle on the C library's triple with an iterator session in the middle: the
+hypotheses of `destroy_releases_all` hold and both ledgers end where they started -/
+example :
+    (match TreeTable.newT .libc { live := 7 } with
+     | (.ok, some t, m) =>
+       let r := t.runSession (cmpOf 0) [.calls [(.add 2 20, []), (.add 1 10, [true]), (.add 3 30, [])],
+         .iterate [.next, .remove, .next], .calls [(.removeLast, [])]] m
+       let m' := r.2.1.destroy r.2.2
+       (r.2.1.abs, r.2.2.liveLibc, m'.liveLibc, m'.live, m'.fault)
+     | _ => ([], 0, 0, 0, true)) = ([(2, 20)], 3, 0, 7, false) := by decide
 
 end CC.Properties.C06Tree
